@@ -22,6 +22,10 @@ type bulkCase struct {
 	Formats []uint8  `json:"formats"`
 	Cards   []uint32 `json:"cards"`
 	Debug   bool     `json:"debug,omitempty"`
+	// Fresh[i]: before card i the application reuses the memory of its kept list for something else (overwrites it in place
+	// with Scribble) and passes a NEW slice with the original content - the call is judged on the list it is given
+	Fresh    []bool  `json:"fresh_list,omitempty"`
+	Scribble []uint8 `json:"kept_list_overwritten_with,omitempty"`
 }
 
 func checkBulk(c bulkCase) *rp.Fail {
@@ -40,10 +44,27 @@ func checkBulk(c bulkCase) *rp.Fail {
 		d.Reset(ok)
 		var err error
 		var pnc any
+		pass := kept
+		fresh := i < len(c.Fresh) && c.Fresh[i] && len(c.Scribble) > 0
+		if fresh {
+			for j := range kept {
+				kept[j] = types.CardFormat(c.Scribble[j%len(c.Scribble)])
+			}
+			pass = make([]types.CardFormat, len(c.Formats))
+			for j, f := range c.Formats {
+				pass[j] = types.CardFormat(f)
+			}
+		}
 		func() {
 			defer func() { pnc = recover() }()
-			_, err = u.PutCard(405419896, types.Card{CardNumber: card, From: types.ToDate(2024, 1, 1), To: types.ToDate(2024, 12, 31)}, kept...)
+			_, err = u.PutCard(405419896, types.Card{CardNumber: card, From: types.ToDate(2024, 1, 1), To: types.ToDate(2024, 12, 31)}, pass...)
 		}()
+		if fresh {
+			// (the kept list holds the original content again for the following cards)
+			for j, f := range c.Formats {
+				kept[j] = types.CardFormat(f)
+			}
+		}
 		if pnc != nil {
 			return rp.Failf("uhppote.PutCard/panic", "card %d of a bulk upload (%d, formats %v) panicked: %v", i+1, card, c.Formats, pnc)
 		}
@@ -70,6 +91,12 @@ func genBulk(t *rapid.T) bulkCase {
 		c.Formats = append(c.Formats, rapid.SampledFrom([]uint8{1, 1, 1, 0, 2, 255}).Draw(t, "format"))
 	}
 	k := rapid.IntRange(2, 6).Draw(t, "cards")
+	if rapid.Bool().Draw(t, "reuse.memory") {
+		c.Scribble = rapid.SampledFrom([][]uint8{{0}, {255}, {1}, {2, 0}}).Draw(t, "scribble")
+		for i := 0; i < k; i++ {
+			c.Fresh = append(c.Fresh, i > 0 && rapid.Bool().Draw(t, "fresh"))
+		}
+	}
 	for i := 0; i < k; i++ {
 		switch rapid.IntRange(0, 3).Draw(t, "card.kind") {
 		case 0: // valid Wiegand-26
